@@ -53,6 +53,7 @@ fn rd(name: &str, flags: u16, ref_id: Option<usize>, pos: Option<usize>, cigar: 
         features: Default::default(),
         template: 0,
         mate: None,
+        stale: None,
     }
 }
 
